@@ -3,11 +3,13 @@ import time
 
 from framework.checklib import CorrResult
 from harness import gen, histcorr, semoracle
+from translator import t6_converters
 
 ID = 'C14'
-TRANSLATORS = []
+TRANSLATORS = [t6_converters.translate]
 PROPERTY_FILE = 'Properties/C14.v'
-THEOREMS = ['C14_rules_denotation', 'C14_rules_three_valued_refine', 'C14_interface_unchanged', 'C14_well_formed',
+THEOREMS = ['C14_rules_denotation', 'C14_rules_three_valued_refine', 'C14_rules_regenerated',
+            'C14_rules_regenerated_eq', 'C14_rules_error_kind_corner', 'C14_interface_unchanged', 'C14_well_formed',
             'C14_function_preserved', 'C14_total_assignments', 'C14_truth_table_preserved',
             'C14_evaluate_partial', 'C14_get_truth_table_partial', 'C14_bench_basis',
             'C14_helpers_in_blocks', 'C14_partial_assignments_differ', 'C14_arity_needed', 'C14_example']
@@ -30,7 +32,13 @@ LEVEL_TEXT = ('proved for every circuit satisfying the C02 invariant (WF and INP
               'correspondence of the full state after every call of generated histories and by the truth-table '
               'oracle on the implementation')
 LEVEL_NOTE = ('Coq kernel + vm_compute; hand-written model (Model/Connect.v into_bench/convert_gate, Circuit.v, Sem.v), '
-              'generated operator tables (T1); correspondence harness. Hypotheses: Inv c (C02), arity_ok c. "At '
+              'generated operator tables (T1); correspondence harness. The ten rewrite rules are regenerated from '
+              'converters.py by translator T6 (Generated/Converters.v: every _convert_* function statement by statement, '
+              'the _convertors dict, _add_new_gate_to_blocks, the set of rules drawing a uuid4) and proved equal to the '
+              'model the theorems are about (C14_rules_regenerated; equal except for the error KIND in one corner where '
+              'both fail: LT/LEQ with a single operand whose helper cannot be emplaced raises CircuitValidationError in '
+              'the source, PyIndexError in the hand model, witness C14_rules_error_kind_corner; normal returns coincide, '
+              'so every theorem transfers); the driver loop of into_bench stays hand-written. Hypotheses: Inv c (C02), arity_ok c. "At '
               'least one input" is not needed (without inputs a constant gate makes into_bench raise, the theorems '
               'speak about normal returns); no freshness assumption (emplace_gate rejects an existing label). The '
               'function is preserved for TOTAL assignments only: with a partial assignment a rewritten comparison gate '
@@ -38,7 +46,8 @@ LEVEL_NOTE = ('Coq kernel + vm_compute; hand-written model (Model/Connect.v into
               'C14_partial_assignments_differ; on three-valued states the rules refine, '
               'C14_rules_three_valued_refine). arity_ok is needed too: a comparison gate with three operands has no value but '
               'its conversion has one (proved witness C14_arity_needed). Statements are about Eval; the evaluators are tied to Eval by C01')
-TECHNIQUE = ('Coq proof: shape lemma for one convert_gate (three kinds of steps), forward simulation of Eval per step by '
+TECHNIQUE = ('the ten rewrite rules are regenerated from converters.py by translator T6 and proved equal to the model the '
+             'theorems are about (case analysis on the operand list, associativity of string append); Coq proof: shape lemma for one convert_gate (three kinds of steps), forward simulation of Eval per step by '
              'a congruence lemma (Eval_redefine: induction on derivations, no rank needed), induction over the snapshot '
              'loop with invariants indexed by the unvisited entries, converse direction from existence '
              '(WF + arity_ok) and functionality of Eval; WF from C02')
